@@ -85,7 +85,9 @@ func parseRangeHeader(s string) (*ObjectRangeRequest, error) {
 
 	ranges := strings.Split(s[len(b):], ",")
 	if len(ranges) > 1 {
-		return nil, ErrorMessage(ErrNotImplemented, "multiple ranges not supported")
+		// Not the single range this server can answer: InvalidRange, like
+		// every other range it cannot serve.
+		return nil, ErrorMessage(ErrInvalidRange, "multiple ranges not supported")
 	}
 
 	rnge := strings.TrimSpace(ranges[0])
